@@ -307,7 +307,8 @@ def barrier():
 
         def outcomes(nm, b):
             if nm == 'add':
-                return [('return', lambda it2, b2, n: True)]
+                # the wait can also be aborted (interrupt, signal) before the lock was obtained
+                return [('return', lambda it2, b2, n: True), 'KeyboardInterrupt']
             return ['return']
         cache = Recorder('cache', ctx.cls('diskcache.core.Cache'), outcomes=outcomes)
         func = FuncRecorder('func')
@@ -327,6 +328,13 @@ def barrier():
         seq = [(e[0], e[1].get('name')) for e in post if e[0] in ('CALL', 'FUNC')]
         names = [('add' if k == 'CALL' and nm == 'add' else 'delete' if k == 'CALL' and nm == 'delete' else 'func' if k == 'FUNC' else nm)
                  for k, nm in seq]
+        aborted = any(e[0] == 'CALL' and e[1].get('name') == 'add' and e[1].get('outcome') == 'raise' for e in post)
+        if aborted:
+            # only a holder releases: an acquire that did not succeed is followed by nothing at all
+            ok = names == ['add'] and p.kind == 'raise' and p.value.cls == 'KeyboardInterrupt'
+            out.append(R('C15.barrier.aborted_acquire_releases_nothing#%d' % n, ok, 'recipes.barrier.wrapper', p,
+                         'after an aborted acquire the wrapper does %r and ends with %s %r' % (names[1:], p.kind, p.value)))
+            continue
         ok = names == ['add', 'func', 'delete']
         f = [e[1] for e in post if e[0] == 'FUNC']
         okargs = len(f) == 1 and len(f[0]['args']) == 1 and f[0]['args'][0].v is p.state.ghost['A'] and \
